@@ -485,4 +485,260 @@ theorem others_stepF (F : Nat → Bool) (cfg : Cfg) (s : State) (e : Event) (d :
       (OthersF.refl F c s)
     exact this d hdc hF y hy
 
+/-! ### the delivery invariant under write faults
+
+`Deliv` (Lemmas/BrokerDeliv) says, for every reachable state: the PUBLISH frames written to a connection are exactly, in
+order, the accepted publishes that list it as a recipient; the recipients of every accepted publish are exactly the
+entitled connections.  Under faults the second clause weakens by design — a faulty destination is entitled and is not a
+recipient — to `recips ⊆ entitled` (`AccOKF`); everything else is kept, in particular the delivery log of EVERY
+connection, so no connection is ever written a message twice, out of order, or one that was not accepted. -/
+
+structure AccOKF (a : Accepted) : Prop where
+  nodup : a.recips.Nodup
+  sub : ∀ d, d ∈ a.recips → d ∈ a.entitled
+  granted : a.grantedOk = true
+  ident : a.srcAk = some a.ident
+  chan : a.chan ∈ a.srcPubchans
+
+theorem AccOK.toF {a : Accepted} (h : AccOK a) : AccOKF a :=
+  ⟨h.nodup, fun d hd => (h.exact d).mp hd, h.granted, h.ident, h.chan⟩
+
+abbrev DelivF (s : State) : Prop := DelivW AccOKF s
+
+theorem deliverF_accepted (F : Nat → Bool) (f : Frame) (s : State) (a : Nat) :
+    (deliverF F f s a).accepted = s.accepted := by
+  unfold deliverF
+  split
+  · rfl
+  · split
+    · exact connectionLost_accepted s a
+    · split <;> rfl
+
+theorem foldl_deliverF_accepted (F : Nat → Bool) (f : Frame) (l : List Nat) (s : State) :
+    (l.foldl (deliverF F f) s).accepted = s.accepted := by
+  induction l generalizing s with
+  | nil => rfl
+  | cons a l ih => simp only [List.foldl_cons]; rw [ih, deliverF_accepted]
+
+/-- what the fan-out loop with faults leaves in each record: either what the fault-free loop would (`DRel`, with the
+    frame appended exactly for the open subscribers whose transport took it), or - for an open subscriber whose
+    transport refused - the record closed at this instant and written nothing -/
+theorem foldl_deliverF_spec (F : Nat → Bool) (f : Frame) (l : List Nat) (hnd : l.Nodup) (s : State) :
+    (∀ d y, s.conn d = some y → ∃ y', (l.foldl (deliverF F f) s).conn d = some y' ∧
+      (DRel y y' (if d ∈ l ∧ y.closing = false ∧ F d = false then [(s.now, .write f)] else []) ∨
+       (d ∈ l ∧ y.closing = false ∧ F d = true ∧
+         y' = { y.beginClose with out := y.out ++ [(s.now, .close)] }))) ∧
+    (∀ d, s.conn d = none → (l.foldl (deliverF F f) s).conn d = none) := by
+  obtain ⟨_, _, fc, fe⟩ := foldl_deliver_spec f l hnd s
+  refine ⟨fun d y hy => ?_, fun d hd => ?_⟩
+  · cases hF : F d with
+    | false =>
+      rw [foldl_deliverF_isolated F f l hnd s hF]
+      obtain ⟨y', hy', r⟩ := fc d y hy
+      refine ⟨y', hy', Or.inl ?_⟩
+      simpa using r
+    | true =>
+      by_cases hd : d ∈ l
+      · rw [foldl_deliverF_conn_in F f l hnd s hd]
+        by_cases hc : y.closing = true
+        · -- already closing: the forced connection_lost, as without faults
+          have hsame : (deliverF F f s d).conn d = (deliver f s d).conn d := by
+            unfold deliverF deliver; rw [hy]; simp [hc]
+          rw [hsame]
+          obtain ⟨_, _, dc, _⟩ := deliver_spec f s d
+          obtain ⟨y', hy', r⟩ := dc d y hy
+          refine ⟨y', hy', Or.inl ?_⟩
+          have : ¬ (d = d ∧ y.closing = false) := by rintro ⟨_, h⟩; rw [hc] at h; cases h
+          rw [if_neg this] at r
+          have h2 : ¬ (d ∈ l ∧ y.closing = false ∧ true = false) := by rintro ⟨_, _, h⟩; cases h
+          rw [if_neg h2]; exact r
+        · have hc' : y.closing = false := by simpa using hc
+          refine ⟨_, ?_, Or.inr ⟨hd, hc', rfl, rfl⟩⟩
+          simp [deliverF, hy, hc', hF, closeT]
+      · rw [foldl_deliverF_conn_notin F f l s hd]
+        refine ⟨y, hy, Or.inl ?_⟩
+        have h2 : ¬ (d ∈ l ∧ y.closing = false ∧ true = false) := fun h => hd h.1
+        rw [if_neg h2]; exact DRel.refl y
+  · by_cases hdl : d ∈ l
+    · rw [foldl_deliverF_conn_in F f l hnd s hdl]
+      simp [deliverF, hd]
+    · rw [foldl_deliverF_conn_notin F f l s hdl]; exact hd
+
+/-- the recipients of a publish under faults, as computed by the model -/
+def recipsOfF (F : Nat → Bool) (s : State) (ch : Bytes) : List Nat :=
+  (s.subs ch).eraseDups.filter fun d => match s.conn d with | some y => !y.closing && !F d | none => false
+
+theorem mem_recipsOfF {F : Nat → Bool} {s : State} {ch : Bytes} {d : Nat} (hr : Reg s) :
+    d ∈ recipsOfF F s ch ↔ ∃ y, s.conn d = some y ∧ ch ∈ y.active ∧ y.closing = false ∧ F d = false := by
+  unfold recipsOfF
+  rw [List.mem_filter, List.mem_eraseDups, hr.sub_iff]
+  constructor
+  · rintro ⟨⟨y, hy, hm⟩, hc⟩
+    rw [hy] at hc
+    simp only [Bool.and_eq_true, Bool.not_eq_eq_eq_not, Bool.not_true] at hc
+    exact ⟨y, hy, hm, hc.1, hc.2⟩
+  · rintro ⟨y, hy, hm, hc, hF⟩
+    exact ⟨⟨y, hy, hm⟩, by rw [hy]; simp [hc, hF]⟩
+
+/-- `Server.publish` under write faults keeps the delivery invariant (in its fault-tolerant form) -/
+theorem deliv_publishF (F : Nat → Bool) {s : State} (c : Nat) (x : Conn) (i ch p : Bytes)
+    (hak : x.ak = some i) (hch : ch ∈ x.pubchans) (hr : Reg s) (h : DelivF s) :
+    DelivF (publishF F s c x i ch p) := by
+  obtain ⟨fc, fe⟩ := foldl_deliverF_spec F (pubFrame i ch p) (s.subs ch).eraseDups (nodup_eraseDups _) s
+  have fa := foldl_deliverF_accepted F (pubFrame i ch p) (s.subs ch).eraseDups s
+  unfold publishF
+  simp only
+  generalize hs' : (s.subs ch).eraseDups.foldl (deliverF F (pubFrame i ch p)) s = s' at fa fc fe
+  have hrec : ∀ d, d ∈ recipsOfF F s ch ↔
+      ∃ y, s.conn d = some y ∧ ch ∈ y.active ∧ y.closing = false ∧ F d = false := fun d => mem_recipsOfF hr
+  have hclose : ∀ (y : Conn), pubFrames (y.out ++ [(s.now, Act.close)]) = pubFrames y.out :=
+    fun y => pubFrames_append_nonPub _ _ _ (by intro f hf; cases hf)
+  constructor
+  · -- the log
+    intro d y' hy'
+    simp only at hy' ⊢
+    cases hy : s.conn d with
+    | none => rw [fe d hy] at hy'; cases hy'
+    | some y =>
+      obtain ⟨y2, hy2, r⟩ := fc d y hy
+      rw [hy2] at hy'; cases hy'
+      rw [fa, delivered_append, ← h.log d y hy]
+      show _ = _ ++ (if d ∈ recipsOfF F s ch then [pubFrame i ch p] else [])
+      rcases r with r | ⟨hdl, hc, hF, rfl⟩
+      · rw [r.out]
+        by_cases hm : d ∈ recipsOfF F s ch
+        · obtain ⟨z, hz, hza, hzc, hzF⟩ := (hrec d).mp hm
+          rw [hy] at hz; cases hz
+          have hd : d ∈ (s.subs ch).eraseDups := by
+            rw [List.mem_eraseDups, hr.sub_iff]; exact ⟨y, hy, hza⟩
+          rw [if_pos ⟨hd, hzc, hzF⟩, if_pos hm, pubFrames_append_pub]
+        · rw [if_neg hm]
+          have : ¬ (d ∈ (s.subs ch).eraseDups ∧ y.closing = false ∧ F d = false) := by
+            rintro ⟨h1, h2, h3⟩
+            rw [List.mem_eraseDups, hr.sub_iff] at h1
+            obtain ⟨z, hz, hza⟩ := h1
+            rw [hy] at hz; cases hz
+            exact hm ((hrec d).mpr ⟨y, hy, hza, h2, h3⟩)
+          rw [if_neg this]; simp
+      · have hm : d ∉ recipsOfF F s ch := by
+          intro hm
+          obtain ⟨_, _, _, _, hzF⟩ := (hrec d).mp hm
+          rw [hF] at hzF; cases hzF
+        rw [if_neg hm]
+        show pubFrames (y.out ++ [(s.now, Act.close)]) = _
+        rw [hclose]; simp
+  · -- every record is still fine
+    intro d y' hy'
+    simp only at hy'
+    cases hy : s.conn d with
+    | none => rw [fe d hy] at hy'; cases hy'
+    | some y =>
+      obtain ⟨y2, hy2, r⟩ := fc d y hy
+      rw [hy2] at hy'; cases hy'
+      have k := h.conn d y hy
+      rcases r with r | ⟨hdl, hc, hF, rfl⟩
+      · refine ⟨fun hc => ?_, fun ch' hch' => ?_⟩
+        · rw [r.closing] at hc
+          rw [r.pubsAtClose, r.out]
+          have : ¬ (d ∈ (s.subs ch).eraseDups ∧ y.closing = false ∧ F d = false) := by
+            rintro ⟨_, h2, _⟩; rw [hc] at h2; cases h2
+          rw [if_neg this, List.append_nil]; exact k.atClose hc
+        · rw [r.granted, r.closing]; exact k.granted ch' (r.active ch' hch')
+      · refine ⟨fun _ => ?_, fun ch' _ => Or.inr ?_⟩
+        · show y.beginClose.pubsAtClose = some (pubFrames (y.out ++ [(s.now, Act.close)]))
+          rw [hclose]; simp [Conn.beginClose, hc]
+        · show y.beginClose.closing = true
+          simp [Conn.beginClose, hc]
+  · -- the accepted records
+    intro a ha
+    simp only at ha
+    rw [fa, List.mem_append, List.mem_singleton] at ha
+    rcases ha with ha | ha
+    · exact h.acc a ha
+    · subst ha
+      refine ⟨?_, ?_, ?_, hak, hch⟩
+      · exact (nodup_eraseDups _).filter _
+      · intro d hd
+        have hd' : d ∈ recipsOfF F s ch := hd
+        obtain ⟨y, hy, hya, hyc, _⟩ := (hrec d).mp hd'
+        exact (mem_entitled hr).mpr ⟨y, hy, hya, hyc⟩
+      · show (recipsOfF F s ch).all _ = true
+        rw [List.all_eq_true]
+        intro d hd
+        obtain ⟨y, hy, hya, hyc, _⟩ := (hrec d).mp hd
+        rw [hy]
+        rcases (h.conn d y hy).granted ch hya with hg | hg
+        · simp [hg]
+        · rw [hyc] at hg; cases hg
+  · intro a ha d hd
+    simp only at ha ⊢
+    rw [fa, List.mem_append, List.mem_singleton] at ha
+    have hex : ∀ d, (s.conn d).isSome = true → (s'.conn d).isSome = true := by
+      intro d hd
+      cases hy : s.conn d with
+      | none => rw [hy] at hd; cases hd
+      | some y => obtain ⟨y2, hy2, _⟩ := fc d y hy; rw [hy2]; rfl
+    rcases ha with ha | ha
+    · exact hex d (h.recips_exist a ha d hd)
+    · subst ha
+      have hd' : d ∈ recipsOfF F s ch := hd
+      obtain ⟨y, hy, _, _⟩ := (hrec d).mp hd'
+      exact hex d (by rw [hy]; rfl)
+
+theorem deliv_publish_F0 {s : State} (c : Nat) (x : Conn) (i ch p : Bytes)
+    (hak : x.ak = some i) (hch : ch ∈ x.pubchans) (hr : Reg s) (h : DelivF s) : DelivF (publish s c x i ch p) := by
+  have := deliv_publishF (fun _ => false) c x i ch p hak hch hr h
+  rwa [publishF_none] at this
+
+/-- registry + fault-tolerant delivery invariant: preserved by every primitive of the fault-free model … -/
+theorem regDelivFPres (cfg : Cfg) : Pres cfg (fun s => Reg s ∧ DelivF s) where
+  prim := fun c => {
+    logAct := fun _ a ha h => ⟨reg_logAct c a h.1, deliv_logAct c a ha.nonPub h.2⟩
+    closeT := fun _ h => ⟨reg_closeT c h.1, deliv_closeT c h.2⟩
+    crashClose := fun _ h => ⟨reg_crashClose c h.1, deliv_crashClose c h.2⟩
+    doSubscribe := fun _ ch ok x hx hr _ _ b h =>
+      ⟨reg_doSubscribe c ch ok x hx hr h.1, deliv_doSubscribe c ch ok x hx b h.2⟩
+    doUnsubscribe := fun _ ch _ _ _ _ h => ⟨reg_doUnsubscribe c ch h.1, deliv_doUnsubscribe c ch h.2⟩
+    setAuth := fun _ i d row _ _ _ h => ⟨reg_setAuth c i d row h.1, deliv_setAuth c i d row h.2⟩
+    pauseReading := fun _ h => ⟨reg_pauseReading c h.1, deliv_pauseReading c h.2⟩
+    resumeReading := fun _ h => ⟨reg_resumeReading c h.1, deliv_resumeReading c h.2⟩
+    addPending := fun _ _ _ h => ⟨((regPres cfg).prim c).addPending _ _ _ h.1,
+      deliv_local c _ (fun _ => ⟨rfl, rfl, rfl, rfl, rfl⟩) h.2⟩
+    dropPending := fun _ _ h => ⟨((regPres cfg).prim c).dropPending _ _ h.1,
+      deliv_local c _ (fun _ => ⟨rfl, rfl, rfl, rfl, rfl⟩) h.2⟩
+    setBuf := fun _ _ h => ⟨((regPres cfg).prim c).setBuf _ _ h.1,
+      deliv_local c _ (fun _ => ⟨rfl, rfl, rfl, rfl, rfl⟩) h.2⟩
+    publish := fun _ x i ch p _ hak hch _ h =>
+      ⟨reg_publish c x i ch p h.1, deliv_publish_F0 c x i ch p hak hch h.1 h.2⟩
+    addConn := fun _ n hc h => ⟨reg_addConn c n hc h.1, deliv_addConn c n hc h.2⟩
+    peerClose := fun _ h => ⟨reg_peerClose c h.1, deliv_peerClose c h.2⟩
+    lostConn := fun _ x hx _ h => ⟨reg_lostConn c x hx h.1, deliv_lostConn c h.2⟩
+    armDeadline := fun _ h => ⟨((regPres cfg).prim c).armDeadline _ h.1,
+      deliv_logAct c _ (by intro f hf; cases hf) (deliv_local c _ (fun _ => ⟨rfl, rfl, rfl, rfl, rfl⟩) h.2)⟩
+    clearDeadline := fun _ a ha h => ⟨((regPres cfg).prim c).clearDeadline _ a ha h.1,
+      deliv_logAct c a (by intro f hf; rcases ha with rfl | rfl <;> cases hf)
+        (deliv_local c _ (fun _ => ⟨rfl, rfl, rfl, rfl, rfl⟩) h.2)⟩ }
+  tick := fun s ms h => ⟨(regPres cfg).tick s ms h.1, deliv_congr (s := s) rfl rfl h.2⟩
+
+/-- … and by a step with write faults -/
+theorem regDelivF_stepF (F : Nat → Bool) (cfg : Cfg) (s : State) (e : Event) (h : Reg s ∧ DelivF s) :
+    Reg (stepF F cfg s e) ∧ DelivF (stepF F cfg s e) :=
+  pres_stepG_at (P := fun s => Reg s ∧ DelivF s) s e (fun c _ => (regDelivFPres cfg).prim c)
+    (fun c _ s x i ch p _ hak hch _ h => ⟨reg_publishF F c x i ch p h.1, deliv_publishF F c x i ch p hak hch h.1 h.2⟩)
+    (fun ms _ h => (regDelivFPres cfg).tick _ ms h) h
+
+theorem delivF_init : DelivF init := by
+  constructor <;> simp [init]
+
+/-- the delivery invariant after EVERY history with write faults and a changing store -/
+theorem delivF_runF (cfg : Cfg) (es : List (Store × List Nat × Event)) : DelivF (runF cfg es) := by
+  unfold runF
+  suffices ∀ s, (Reg s ∧ DelivF s) →
+      (Reg (es.foldl (fun s e => stepF (fun d => decide (d ∈ e.2.1)) (cfg.withStore e.1) s e.2.2) s) ∧
+       DelivF (es.foldl (fun s e => stepF (fun d => decide (d ∈ e.2.1)) (cfg.withStore e.1) s e.2.2) s)) from
+    (this _ ⟨reg_init, delivF_init⟩).2
+  induction es with
+  | nil => intro s h; exact h
+  | cons e es ih => intro s h; exact ih _ (regDelivF_stepF _ _ s e.2.2 h)
+
 end Hpfeeds.Broker
